@@ -1331,6 +1331,31 @@ def rt_c05(tier="quick", first_only=False, count=None):
                 fails.append(dict(what=f"{name}(params broadcast to {d.shape}).log_prob at x[0]={np.ravel(x)[:3].tolist()}: {bad}", case=dict(family=name)))
                 if first_only:
                     return fails
+    # deep tails (|z| up to 1000 through a small scale): the textbook log-density is finite there for every full-support family and must
+    # not overflow to -inf / NaN (seed U6: exp(-z) in a hand-written logistic log-density). Reference: closed forms in stable float64
+    # arithmetic (scipy.stats underflows for some families in the tail, so it is not used here).
+    t_loc, t_scale = 5.0, 1e-3
+    tail_ref = {
+        "Normal": lambda z: -0.5 * z * z - 0.5 * np.log(2 * np.pi),
+        "Cauchy": lambda z: -np.log(np.pi) - np.log1p(z * z),
+        "Laplace": lambda z: -abs(z) - np.log(2.0),
+        "Logistic": lambda z: -abs(z) - 2.0 * np.log1p(np.exp(-abs(z))),
+        "Gumbel": lambda z: -(z + np.exp(-z)) if z > -700 else -np.inf,
+    }
+    for name, ref_ in tail_ref.items():
+        ctor = getattr(Dm, name, None)
+        if ctor is None:
+            continue
+        for xx in (4.0, 6.0, 4.2, 5.75, 5.0 - 0.0895, 5.0 + 0.0895):
+            n += 1
+            z = (xx - t_loc) / t_scale
+            want = ref_(z) - np.log(t_scale)
+            got = float(ctor(t_loc, t_scale).log_prob(xx))
+            okv = (np.isneginf(want) and np.isneginf(got)) or (np.isfinite(want) and np.isfinite(got) and abs(got - want) <= 1e-9 * max(1.0, abs(want)))
+            if not okv:
+                fails.append(dict(what=f"{name}({t_loc}, {t_scale}).log_prob({xx}) = {got!r}; the textbook log-density there (z = {z:.6g}) is {want!r}", case=dict(family=name, point="deep tail")))
+                if first_only:
+                    return fails
     # multivariate normal + mixture
     n += 1
     cov = np.array([[2.0, 0.3, 0.0], [0.3, 1.0, -0.2], [0.0, -0.2, 0.5]])
